@@ -129,8 +129,11 @@ class Frontend:
             ents = [os.path.join(CACHE, d) for d in os.listdir(CACHE)]
             ents = [d for d in ents if os.path.isdir(d) and d != self.dir]
             ents.sort(key=lambda d: os.stat(d).st_mtime, reverse=True)
-            for d in ents[3:]:
-                shutil.rmtree(d, ignore_errors=True)
+            now = time.time()
+            for d in ents[4:]:
+                # never remove a cache another (concurrent) check may still be filling: only entries idle for 20 minutes
+                if now - os.stat(d).st_mtime > 1200:
+                    shutil.rmtree(d, ignore_errors=True)
             os.utime(self.dir, None)
         except OSError:
             pass
